@@ -10,7 +10,9 @@
    exactly its declared number of words on the stack, the state storage has the size dsp's skeleton publishes and
    the state cursor is back at 0.  `OutOfFuel` only says that the given fuel was used up. *)
 From Coq Require Import List ZArith NArith Bool.
+From Mimium Require Import Heap.Model.
 From Mimium Require Import Bvm.Model Bvm.Verify Bvm.SoundTop Bvm.LmmmBridge Bvm.Examples.
+From Mimium Require Import Bvm.XModel Bvm.XVerify Bvm.XInv Bvm.XSoundTop Bvm.XBridge Bvm.XSim Bvm.XExamples.
 From Mimium Require Lmmm.Machine.
 Import ListNotations.
 Local Open Scope N_scope.
@@ -116,4 +118,117 @@ Example C03_bvm_default_param_call_rejected :
   verify ex_default_param = false /\ first_bad ex_default_param = Some (3, 8) /\
   after_main ex_default_param = Some (mkMach [] [] 0 []) /\
   exec_dsp toy ex_default_param 100 [] (mkMach [] [] 0 []) = Fault StackReadOOB.
+Proof. vm_compute. repeat split; reflexivity. Qed.
+
+
+(* ======================================================================================================================
+   The closure / upvalue / heap layer.  Bvm/XModel.v extends the machine with Machine.closures and Machine.heap (slot maps
+   with generational keys: the definitions of Heap/Model.v), the shared upvalue cells, the per-closure state storages and
+   states_stack, and gives a meaning to Closure Close CallCls MakeHeapClosure CloseHeapClosure CloneHeap CallIndirect
+   GetUpValue SetUpValue BoxAlloc BoxLoad BoxClone BoxRelease BoxStore; with `strict = false` it transcribes vm.rs and is
+   what checks/bvm_part.py runs against the real VM (outputs, state words, cursor, closures.len(), heap.len() per sample).
+   Bvm/XVerify.v extends the verifier.
+
+   What is proved (PARTIAL, hence the names): bytecode accepted by `xverify` never reaches an unsupported instruction and
+   never faults on the stack, constants, function indices, jumps, globals, the state storage (the global one or a closure's
+   own, which has the size its function's skeleton publishes), the cursor (balanced in every storage), or an upvalue
+   index - EXCEPT for the faults of the dynamic class `Dyn d` (Bvm/Model.v `dynfault`), which depend on the value a
+   register or an upvalue cell holds at run time and are excluded from the conclusion:
+     DynHandle      a stale closure / heap handle is dereferenced, or the object is smaller than the access
+     DynUpvalue     an open upvalue cell points outside the stack, a closed cell has another width
+   and, raised by the INSTRUMENTED semantics (strict = true) only - the real VM makes no such check and goes on -
+     DynSignature   the function behind an indirect callee does not fit the call site (words of parameters / results)
+     DynReentry     a closure is entered while the cursor of its own state storage is not 0
+     DynOpenWrite   SetUpValue through an OPEN cell (a write into another activation's registers)
+     DynCellWidth   an upvalue cell is not as wide as the running function's upindexes entry says.
+   C03_bvm_strict_agrees ties the two semantics: until one of the last four fires they have the same outcome.
+   Handle liveness is the subject of the C12 monitor.  Not covered: arrays, boxed sum types, integer arithmetic.
+   `xminv p x`: globals of the declared size, global cursor 0, states_stack empty, the closure table a well-formed slot
+   map in which every closure has a valid function index, as many cells as its function has upindexes and a state
+   storage of the size of its function's skeleton (Bvm/XSoundTop.v, Bvm/XInv.v). *)
+Theorem C03_bvm_closures_verified_safe_partial : forall (p : program), xverify p = true ->
+  forall (A : arith) (fuel : nat) (inputs : list Z) (x : xmach) (f : fn),
+  dsp_fn p = Some f -> xminv p x -> f_pwords f <= lenN inputs ->
+  match xexec_dsp A p true fuel inputs x with
+  | XRet n x' => n = f_nret f /\ lenN (x_stack x') = f_nret f /\ lenN (m_state (x_core x')) = f_ssize f /\ xminv p x'
+  | XOutOfFuel => True
+  | XFault e => is_dyn e = true
+  | XUnsupported _ => False
+  end.
+Proof. exact xexec_dsp_safe. Qed.
+
+Theorem C03_bvm_closures_main_safe_partial : forall (p : program), xverify p = true ->
+  forall (A : arith) (fuel : nat),
+  match xexec_main A p true fuel (xmach0 p) with
+  | XRet n x' => xminv p x' /\ lenN (x_stack x') = n
+  | XOutOfFuel => True
+  | XFault e => is_dyn e = true
+  | XUnsupported _ => False
+  end.
+Proof. exact xexec_main_fresh_safe. Qed.
+
+Theorem C03_bvm_closures_session_safe_partial : forall (p : program), xverify p = true ->
+  forall (fuel : nat) (f : fn) (steps : list (arith * list Z)) (x : xmach),
+  dsp_fn p = Some f -> xminv p x -> Forall (fun s => f_pwords f <= lenN (snd s)) steps ->
+  Forall (fun o => match o with
+                   | XRet n x' => n = f_nret f /\ lenN (x_stack x') = f_nret f /\ lenN (m_state (x_core x')) = f_ssize f /\
+                                  m_pos (x_core x') = 0
+                   | XOutOfFuel => True
+                   | XFault e => is_dyn e = true
+                   | XUnsupported _ => False
+                   end) (xrun_session p true fuel steps x).
+Proof. exact xrun_session_safe. Qed.
+
+(* the instrumented semantics against the transcription of vm.rs: `agree o1 o2` = o2 is a fault only the instrumentation
+   raises (strict_only), or o1 = o2 *)
+Theorem C03_bvm_strict_agrees : forall (A : arith) (p : program) (fuel : nat) (inputs : list Z) (x : xmach),
+  (exists d, xexec_dsp A p true fuel inputs x = XFault (Dyn d) /\ strict_only d = true) \/
+  xexec_dsp A p false fuel inputs x = xexec_dsp A p true fuel inputs x.
+Proof. exact xexec_dsp_agree. Qed.
+
+(* on a program without any instruction of the closure layer the extended machine is the machine of Bvm/Model.v (so
+   C03_bvm_verified_safe, _main_safe, _session_safe and _fuel are theorems about the model the check extracts and runs):
+   `xm C H ce ar m` is the extended machine with core m, empty states_stack and any closures / heap / cells / arrays,
+   `lift` maps Ret n m' to XRet n (xm .. m') and every other outcome to itself *)
+Theorem C03_bvm_xmodel_is_model_on_old_subset : forall (A : arith) (p : program) (strict : bool)
+    (C : smap clos) (H : smap hobj) (ce : list upval) (ar : smap arr),
+  closure_free p = true ->
+  forall (fuel : nat) (inputs : list Z) (m : mach),
+  xexec_dsp A p strict fuel inputs (xm C H ce ar m) = lift C H ce ar (exec_dsp A p fuel inputs m) /\
+  xexec_main A p strict fuel (xm C H ce ar m) = lift C H ce ar (exec_main A p fuel m).
+Proof. intros A p strict C H ce ar Hf fuel inputs m. split; [apply xexec_dsp_old|apply xexec_main_old]; exact Hf. Qed.
+
+(* ---- a real dumped program with closures (a counter whose captured variable lives in a closed upvalue cell, made by
+        main and kept in a global) is accepted and runs in the instrumented semantics: every sample returns one word, cursor
+        0, closures.len() = heap.len() = 1 - the numbers the real VM shows ---- *)
+Example C03_bvm_ex_counter_accepted : xverify ex_counter = true.
+Proof. vm_compute. reflexivity. Qed.
+
+Example C03_bvm_ex_counter_runs :
+  match xafter_main true ex_counter with
+  | Some x => xsamples true ex_counter 3 x = [Some (1, 0, 1, 1); Some (1, 0, 1, 1); Some (1, 0, 1, 1)]
+  | None => False
+  end.
+Proof. vm_compute. reflexivity. Qed.
+
+(* ---- an upvalue index beyond the function's upindexes is rejected AND faults ---- *)
+Example C03_bvm_ex_bad_upvalue_rejected :
+  xverify ex_bad_upvalue = false /\ xfirst_bad ex_bad_upvalue = Some (2, 0) /\
+  match xafter_main false ex_bad_upvalue with
+  | Some x => xexec_dsp toy ex_bad_upvalue false 100 [] x = XFault UpvalueIndexOOB
+  | None => False
+  end.
+Proof. vm_compute. repeat split; reflexivity. Qed.
+
+(* ---- a finding: the shipped test closure_tuple_escape.mmm reads a two-word OPEN upvalue into the registers at the top
+        of the stack (function ff, pc 2: GetUpValue 2 1 2; the verifier, which cannot know that f's cells are closed, already
+        stops at the same pattern in f, pc 3).  vm.rs hands set_vec_range a slice that points into the
+        stack while the pushes may reallocate it (use-after-free read; the source file itself notes "the result becomes 48
+        only on the time 0").  The verifier rejects the bytecode there and the model refuses to predict the VM ---- *)
+Example C03_bvm_open_upvalue_read_grows_stack_rejected :
+  xverify ex_tuple_escape = false /\ xfirst_bad ex_tuple_escape = Some (2, 3) /\
+  match xafter_main false ex_tuple_escape with
+  | Some x => xexec_dsp toy ex_tuple_escape false 400 [] x = XUnsupported UnsupStackAlias
+  | None => False
+  end.
 Proof. vm_compute. repeat split; reflexivity. Qed.
